@@ -920,3 +920,48 @@ Theorem C04_tr_fits_of_bounds : forall (blk : block) (n : nat) (s : option (list
 Proof. exact fits_of_bounds. Qed.
 Print Assumptions C04_tr_fits_of_bounds.
 End C04_translated_composed2.
+
+(* ---- the hypotheses of C04_tr_undo_inverts_edit_ranges that are stated on the memories of the run (the mark rows lbuf_opt leaves; step_ok at the entry of
+   the undo and of the redo) HOLD on the concrete run of C04_tr_edit_undo_redo_runs: the memories are computed by vm_compute from the three translated calls,
+   all 32 rows are -1 or small, the capacity goes 3 -> 6 and stays. *)
+Section C04_translated_composed3.
+Import Lia CLite CLiteProps CLiteExt GenCFuncs TrLbufBase TrUndoBase TrUndo TrUndoOpt TrUndoEdit TrSpliceMarks TrSpliceAll TrSpliceModels.
+Import TrCmp4Str TrCmp4Rep TrCmp4 TrCmp4Loop TrCmp4Edit TrCmp4Ex.
+Local Open Scope Z_scope.
+
+Ltac marks32 := let k := fresh "k" in let Hk := fresh "Hk" in intros k Hk;
+  do 32 (destruct k as [|k]; [eexists; split; [reflexivity|unfold row_fits, i32; cbn; split; [lia|intro; lia]]|]); lia.
+
+Example C04_tr_chain_hypotheses_hold :
+  (forall (m1 : mem) (blk1 : block),
+     callx cx_ext cprog 100 (S (S (S (S 3)))) F_lbuf_opt [VPtr cx_G 0; VPtr (cx_G + 6) 0; VInt 1; VInt 1] cx_mem = Ok (VUndef, m1) ->
+     nth_error m1 cx_G = Some blk1 ->
+     forall k, (k < 32)%nat -> exists z, nth_error blk1 k = Some (VInt z) /\ row_fits 1 1 2 z) /\
+  (let lb1 := lbuf_edit cx_lb (Some [120; 10; 121]%N) 1 2 in let lb2 := undo1 lb1 in
+   (forall m1, callx cx_ext cprog 100 (S (S (S (S (S 3))))) F_lbuf_edit [VPtr cx_G 0; VPtr (cx_G + 6) 0; VInt 1; VInt 2] cx_mem = Ok (VUndef, m1) ->
+     let lo := nth (hist_u lb1 - 1) (hist lb1) dflt in step_ok 100 cx_G m1 (length (ln lb1)) (del lo) (pos lo) (n_ins lo)) /\
+   (forall m1 m2, callx cx_ext cprog 100 (S (S (S (S (S 3))))) F_lbuf_edit [VPtr cx_G 0; VPtr (cx_G + 6) 0; VInt 1; VInt 2] cx_mem = Ok (VUndef, m1) ->
+     callx cx_ext cprog 100 (S (S (S (S 3)))) F_lbuf_undo [VPtr cx_G 0] m1 = Ok (VInt 0, m2) ->
+     let lo := nth (hist_u lb2) (hist lb2) dflt in step_ok 100 cx_G m2 (length (ln lb2)) (ins lo) (pos lo) (n_del lo))).
+Proof.
+  split; [|split].
+  - intros m1 blk1 C Hb. vm_compute in C. injection C as <-. vm_compute in Hb. injection Hb as <-.
+    marks32.
+  - intros m1 C. vm_compute in C. injection C as <-. cbv zeta.
+    split; [|split].
+    + eexists. exists 6. split; [vm_compute; reflexivity|]. split; [|split].
+      * marks32.
+      * exists 6%nat. split; vm_compute; reflexivity.
+      * lia.
+    + intros t Ht. vm_compute in Ht. injection Ht as <-. cbn. lia.
+    + vm_compute. lia.
+  - intros m1 m2 C1 C2. vm_compute in C1. injection C1 as <-. vm_compute in C2. injection C2 as <-. cbv zeta.
+    split; [|split].
+    + eexists. exists 6. split; [vm_compute; reflexivity|]. split; [|split].
+      * marks32.
+      * exists 6%nat. split; vm_compute; reflexivity.
+      * lia.
+    + intros t Ht. vm_compute in Ht. injection Ht as <-. cbn. lia.
+    + vm_compute. lia.
+Qed.
+End C04_translated_composed3.
